@@ -20,6 +20,7 @@ def idle : Nat := (constNat "debt/helping.rs" "IDLE").getD 1
 def nodeUnused : Nat := (constNat "debt/list.rs" "NODE_UNUSED").getD 99
 def nodeUsed : Nat := (constNat "debt/list.rs" "NODE_USED").getD 99
 def nodeCooldown : Nat := (constNat "debt/list.rs" "NODE_COOLDOWN").getD 99
+def nodeChecking : Nat := (constNat "debt/list.rs" "NODE_CHECKING").getD 99
 
 def useFastDefault : Bool :=
   (constBool "strategy/hybrid.rs" "<DefaultConfig as Config>::USE_FAST").getD false
@@ -70,6 +71,10 @@ theorem debtNone_ok : debtNone % 2 = 1 ∧ debtNone ≠ 0 ∧ debtNone < 4096 :=
 
 theorem node_states_distinct :
     nodeUnused ≠ nodeUsed ∧ nodeUsed ≠ nodeCooldown ∧ nodeUnused ≠ nodeCooldown := by decide
+
+/-- the transient state of `check_cooldown` is none of the others -/
+theorem node_checking_distinct :
+    nodeChecking ≠ nodeUsed ∧ nodeChecking ≠ nodeUnused ∧ nodeChecking ≠ nodeCooldown := by decide
 
 theorem slotCnt_pos : 0 < slotCnt := by decide
 
